@@ -8,7 +8,7 @@ from hypothesis import strategies as st
 from hgv import gen
 from hgv import tsmodel as tm
 from hgv.runner import Result, Viol
-from hgv.worker import HarnessError
+from hgv.worker import HarnessError, Rejected
 
 ID = "C14"
 ASAN_THOROUGH = True   # thorough tier runs against the AddressSanitizer build
@@ -151,7 +151,7 @@ def check(case, ctx) -> Result:
         res.violations.append(Viol("engine_crash", f"worker died {resp.get('signal')} {resp.get('stderr', '')[-500:]}"))
         return res
     if not resp.get("built"):
-        raise HarnessError(f"C14 generator produced a program the tree rejects: {resp.get('error')}")
+        raise Rejected(f"C14 generator produced a program the tree rejects: {resp.get('error')}")
     trace = resp["trace"]
     err = resp.get("error")
     feats = {"shape": case["shape"], "cleanup": case["cleanup"], "phases": ",".join(sorted({f["phase"] for f in case["faults"]})), "n_faults": len(case["faults"])}
